@@ -559,8 +559,13 @@ Inductive arg : Type :=
 | ANull                    (* null source: time-series argument without schema *)
 | AAbsent.                 (* scalar argument without a value (Python None) *)
 
+(* c_defaults is parallel to c_params: the argument normalize_call synthesises for an omitted
+   parameter (ParamPattern::default_value), or None when the parameter is required.
+     Scalar parameter, default value of schema s -> ASc s;   Scalar parameter, None default -> AAbsent
+     Input parameter,  None default -> ANull (null source);  Input parameter, value default -> ASc s (promoted) *)
 Record cand : Type := mkCand {
-  c_label : Z; c_has_out : bool; c_out : tpat; c_params : list param; c_rank : Z }.
+  c_label : Z; c_has_out : bool; c_out : tpat; c_params : list param; c_rank : Z;
+  c_defaults : list (option arg) }.
 
 Record query : Type := mkQuery {
   q_outreq : option bool; q_expected : option tty; q_init : rmap; q_hints : list Z; q_args : list arg }.
@@ -617,8 +622,28 @@ Fixpoint bind_hints (names hints : list Z) (m : rmap) : option rmap :=
 
 Inductive tmr : Type := TMErr | TMRej | TMOk (m : rmap) (rank : Z).
 
+(* normalize_call for positional calls: arguments fill the parameters in order; more arguments
+   than parameters reject; every omitted parameter takes its default (counted in defaults_used)
+   or, lacking one, rejects ("missing required argument").  Result: the positional argument
+   list in declared parameter order and the number of defaults used. *)
+Fixpoint normalize (defs : list (option arg)) (al : list arg) {struct defs} : option (list arg * Z) :=
+  match defs, al with
+  | [], [] => Some ([], 0)
+  | [], _ :: _ => None
+  | _ :: ds, a :: al' =>
+      match normalize ds al' with Some (l, k) => Some (a :: l, k) | None => None end
+  | d :: ds, [] =>
+      match d with
+      | Some a => match normalize ds [] with Some (l, k) => Some (a :: l, k + 1) | None => None end
+      | None => None
+      end
+  end.
+
 Definition try_match (c : cand) (q : query) : tmr :=
-  if negb (length (c_params c) =? length (q_args q))%nat then TMRej        (* normalize_call *)
+  match normalize (c_defaults c) (q_args q) with                           (* normalize_call *)
+  | None => TMRej
+  | Some (nargs, dused) =>
+  if negb (length (c_params c) =? length nargs)%nat then TMRej
   else
     match (match q_hints q with [] => Some (q_init q) | _ => bind_hints (size_vars c) (q_hints q) (q_init q) end) with
     | None => TMErr
@@ -631,7 +656,7 @@ Definition try_match (c : cand) (q : query) : tmr :=
                  end) with
           | None => TMRej
           | Some m1 =>
-              match match_args (c_params c) (q_args q) (m1, 0) with
+              match match_args (c_params c) nargs (m1, dused) with     (* rank_adjustment starts at defaults_used *)
               | None => TMRej
               | Some (m2, adj) =>
                   if c_has_out c then
@@ -642,7 +667,8 @@ Definition try_match (c : cand) (q : query) : tmr :=
                   else TMOk m2 (c_rank c + adj)
               end
           end
-    end.
+    end
+  end.
 
 (* ------------------------------------------------------------------------- *)
 (* OperatorRegistry::resolve                                                  *)
@@ -894,10 +920,25 @@ Definition apply_bind (m : rmap) (b : bindop) : option rmap :=
 Definition apply_bind_keep (m : rmap) (b : bindop) : rmap :=
   match apply_bind m b with Some m' => m' | None => m end.
 
-Definition p_param (f : nat) : parser param :=
+(* default of a parameter: 0 required | 1 None default | 2 S value default of schema S *)
+Definition p_default (f : nat) (input : bool) : parser (option arg) :=
   fun l => match l with
-           | 0 :: r => match p_tpat f r with Some (p, r') => Some (PIn p, r') | None => None end
-           | 1 :: r => match p_spat f r with Some (p, r') => Some (PScal p, r') | None => None end
+           | 0 :: r => Some (None, r)
+           | 1 :: r => Some (Some (if input then ANull else AAbsent), r)
+           | 2 :: r => match p_sty f r with Some (s, r') => Some (Some (ASc s), r') | None => None end
+           | _ => None
+           end.
+
+Definition p_param (f : nat) : parser (param * option arg) :=
+  fun l => match l with
+           | 0 :: r => match p_tpat f r with
+                       | Some (p, r') => match p_default f true r' with Some (d, r'') => Some ((PIn p, d), r'') | None => None end
+                       | None => None
+                       end
+           | 1 :: r => match p_spat f r with
+                       | Some (p, r') => match p_default f false r' with Some (d, r'') => Some ((PScal p, d), r'') | None => None end
+                       | None => None
+                       end
            | _ => None
            end.
 
@@ -916,8 +957,12 @@ Definition p_index : parser Z :=
 Record spec : Type := mkSpec {
   sp_ovs : list cand; sp_orders : list (list Z); sp_queries : list query; sp_scripts : list (list bindop) }.
 
+(* registration computes the rank from the parameter patterns (defaults do not enter it) *)
+Definition mk_cand_d (label : Z) (has_out : bool) (out : tpat) (pds : list (param * option arg)) : cand :=
+  mkCand label has_out out (map fst pds) (operator_rank (map fst pds)) (map snd pds).
+
 Definition mk_cand (label : Z) (has_out : bool) (out : tpat) (ps : list param) : cand :=
-  mkCand label has_out out ps (operator_rank ps).
+  mk_cand_d label has_out out (map (fun p => (p, None)) ps).
 
 (* one case line; None = malformed *)
 Definition p_line (s : spec) (l : list Z) : option spec :=
@@ -930,7 +975,7 @@ Definition p_line (s : spec) (l : list Z) : option spec :=
             if cnt_ok n then
               match p_many (p_param f) (Z.to_nat n) r' with
               | Some (ps, []) =>
-                  Some (mkSpec (sp_ovs s ++ [mk_cand label (ho =? 1) out ps]) (sp_orders s) (sp_queries s) (sp_scripts s))
+                  Some (mkSpec (sp_ovs s ++ [mk_cand_d label (ho =? 1) out ps]) (sp_orders s) (sp_queries s) (sp_scripts s))
               | _ => None
               end
             else None
